@@ -29,6 +29,9 @@ T5 == << D(<<43>>,  0,  TRUE),
          B(<<42>>,  50, TRUE),
          B(<<37>>,  50, FALSE),
          U(<<115, 110>>) >>
+(* T5c: call-form table: alphabetic binaries f (0, non-comm), g (50, comm), symbolic * (50, comm),   *)
+(* dual - (0, non-comm), unary u.                                                                       *)
+T5c == << B(<<102>>, 0, FALSE), B(<<103>>, 50, TRUE), B(<<42>>, 50, TRUE), D(<<45>>, 0, FALSE), U(<<117>>) >>
 (* T3: minimal table for 5-leaf bounds: + (0, comm), mn (0, non-comm), * (50, comm).                   *)
 T3 == << B(<<43>>,       0,  TRUE),
          B(<<109, 110>>, 0,  FALSE),
